@@ -321,6 +321,9 @@ def get_indexes_for_target(target, result, idx):
     else:
         if type(target) is Starred:
             target = target.value
+            if isinstance(target, NESTED_INDEXED_NODES):
+                # *(a, b) = ...: the names of the nested target
+                return get_indexes_for_target(target, result, idx)
         result.append((target, idx[:]))  # type: ignore[arg-type]
         if idx:
             idx[-1] += 1
